@@ -119,8 +119,8 @@ PROPS = {
             "index level: per-file contributions (FileIndex, built by the real BuildFileIndexFromContent) are inputs of the model; the model covers SetFileIndex / RemoveFile / decrementBy / payee-template bookkeeping",
             "workspace level (UpdateFile, include-tree refresh fix-point, caches) is not modelled: it is checked by the rebuild oracle only (incremental workspace vs fresh workspace with a fresh loader on the files on disk)",
         ],
-        "assumptions": ["payee templates are compared by key set (a fresh Initialize fills them while ranging over a map)"],
-        "explanation": "C12_counters for all operation sequences; templates refuted; tie on WorkspaceIndex operation sequences; oracle: six view components after every update vs a fresh workspace",
+        "assumptions": ["a template is represented in the model by a 64-bit FNV fingerprint of its JSON form; at workspace level the whole template table is compared"],
+        "explanation": "C12_counters and C12_view_function_of_files for all operation sequences; template table a function of the file set; tie on WorkspaceIndex operation sequences; oracle: six view components after every update vs a fresh workspace",
     },
     "C15": {
         "n": {"quick": 60, "thorough": 1500},
